@@ -174,6 +174,13 @@ class Interp:
         block is DROPPED from the verified text (the contract's requires stand for the dropped prefix and are monitored at run time)."""
         node = self.mod.find(qual)
         body = node.body
+        if not any(first(ast.unparse(s)) for s in body):
+            # the block may sit inside loops / branches: take the innermost statement list that contains the first statement
+            for n_ in ast.walk(node):
+                for fld in ("body", "orelse", "finalbody"):
+                    lst = getattr(n_, fld, None)
+                    if isinstance(lst, list) and lst and isinstance(lst[0], ast.stmt) and any(first(ast.unparse(s)) for s in lst):
+                        body = lst
         i0 = next((i for i, s in enumerate(body) if first(ast.unparse(s))), None)
         i1 = next((i for i, s in enumerate(body) if i0 is not None and i >= i0 and last(ast.unparse(s))), None)
         if i0 is None or i1 is None:
